@@ -463,14 +463,14 @@ class AbstractExcelInPython(ABC):
         return date.year
 
     def _iferror(self, condition_function, when_error):
+        # запасное значение вычисляется только когда оно понадобилось
         try:
             cell = condition_function()
-            if self._find_error_in_list([cell]):
-                return when_error
-            else:
+            if not self._find_error_in_list([cell]):
                 return cell
         except:
-            return when_error
+            pass
+        return when_error() if callable(when_error) else when_error
 
     def _left(self, text, num_chars):
         if num_chars is None:
